@@ -94,7 +94,8 @@ func (f *Frame) instr(in ssa.Instruction) {
 		if x.Place != nil && x.Place.Kind == 5 {
 			v.Place = &Place{Kind: 5, Ptr: v.S, Priv: fmt.Sprintf("%s.%d", x.Place.Priv, in.Field)}
 		} else {
-			v.Place = &Place{Kind: 1, Ptr: v.S, Base: x.S, Named: pt.Elem(), Struct: pt.Elem().Underlying().(*types.Struct), Idx: in.Field}
+			v.Place = g.fieldPlaceFrom(x.Place, x.S, pt.Elem(), in.Field)
+			v.Place.Ptr = v.S
 		}
 		f.vals[in] = v
 	case *ssa.IndexAddr:
@@ -312,11 +313,29 @@ func (g *Gen) subPlace(parent *Place, named types.Type, idx int) *Place {
 	if parent.Kind == 5 {
 		return &Place{Kind: 5, Ptr: fmt.Sprintf("(mk-ptr (obj %s) (fld (path %s) %d))", parent.Ptr, parent.Ptr, idx), Priv: fmt.Sprintf("%s.%d", parent.Priv, idx)}
 	}
-	return g.fieldPlace(parent.Ptr, named, idx)
+	return g.fieldPlaceFrom(parent, parent.Ptr, named, idx)
+}
+
+// fieldPlaceFrom builds the place of field idx of the struct (of type named) at pointer base. If the
+// struct is itself a struct-valued field whose address never escapes (parent is such a field place),
+// the heap map is keyed by the enclosing struct type and the index path, and indexed by the enclosing
+// struct's pointer; otherwise by (named, idx) and base.
+func (g *Gen) fieldPlaceFrom(parent *Place, base string, named types.Type, idx int) *Place {
+	pl := g.fieldPlace(base, named, idx)
+	if parent != nil && parent.Kind == 1 && parent.Root != nil && !g.P.FieldEscapes(parent.Named, parent.Idx) {
+		if _, isStruct := parent.Struct.Field(parent.Idx).Type().Underlying().(*types.Struct); isStruct {
+			pl.Root, pl.RootPtr, pl.Path = parent.Root, parent.RootPtr, fmt.Sprintf("%s.%d", parent.Path, idx)
+		}
+	}
+	return pl
+}
+
+func fieldHeapKey(root types.Type, path string) string {
+	return "F|" + typeKey(root) + "|" + path
 }
 
 func (g *Gen) fieldPlace(base string, named types.Type, idx int) *Place {
-	return &Place{Kind: 1, Ptr: fmt.Sprintf("(mk-ptr (obj %s) (fld (path %s) %d))", base, base, idx), Base: base, Named: named,
+	return &Place{Root: named, RootPtr: base, Path: fmt.Sprint(idx), Kind: 1, Ptr: fmt.Sprintf("(mk-ptr (obj %s) (fld (path %s) %d))", base, base, idx), Base: base, Named: named,
 		Struct: named.Underlying().(*types.Struct), Idx: idx}
 }
 
@@ -363,9 +382,9 @@ func (g *Gen) loadAt(pl *Place, t types.Type, h *HeapState) Val {
 		return Val{S: h.get(pl.Priv), Sort: s, GT: t}
 	case 1:
 		if _, isArr := pl.Struct.Field(pl.Idx).Type().Underlying().(*types.Array); !isArr && !g.P.FieldEscapes(pl.Named, pl.Idx) {
-			key := "F|" + typeKey(pl.Named) + "|" + fmt.Sprint(pl.Idx)
+			key := fieldHeapKey(pl.Root, pl.Path)
 			g.ensureKey(key, s)
-			return Val{S: app("select", h.get(key), pl.Base), Sort: s, GT: t}
+			return Val{S: app("select", h.get(key), pl.RootPtr), Sort: s, GT: t}
 		}
 		key := "H|" + typeKey(t)
 		g.ensureKey(key, s)
@@ -437,9 +456,9 @@ func (f *Frame) storeAt(pl *Place, v Val, t types.Type) {
 		return
 	case 1:
 		if _, isArr := pl.Struct.Field(pl.Idx).Type().Underlying().(*types.Array); !isArr && !g.P.FieldEscapes(pl.Named, pl.Idx) {
-			key := "F|" + typeKey(pl.Named) + "|" + fmt.Sprint(pl.Idx)
+			key := fieldHeapKey(pl.Root, pl.Path)
 			g.ensureKey(key, s)
-			h.set(key, app("store", h.get(key), pl.Base, v.S))
+			h.set(key, app("store", h.get(key), pl.RootPtr, v.S))
 			return
 		}
 		key := "H|" + typeKey(t)
